@@ -4,6 +4,7 @@ CONSTANTS
   Pings = {3}
   CtxCalls = {}
   FailCalls = {2}
+  NoMethodCalls = {}
   CliPipe = FALSE
   CliDirect = FALSE
   SrvPipe = FALSE
